@@ -130,6 +130,15 @@ let judge_arith (lhs : string list) (rhs : string list) (line : string) =
     report line codes
   | _ -> report line [z_of_int 99]
 
+(* "dec,cond,err" *)
+let mres_of_token (t : string) : mres option =
+  if t = "-" then None else
+  match String.split_on_char ',' t with
+  | [d; c; e] -> Some { m_dec = dec_req d; m_cond = cond_of_Z (z_of_dec_string c); m_err = err_of_token e }
+  | _ -> failwith ("mres " ^ t)
+let mres_req t = match mres_of_token t with Some r -> r | None -> failwith "mres -"
+let rec nat_of_int n = if n <= 0 then O else S (nat_of_int (n - 1))
+
 let judge_line (line : string) =
   incr total;
   let lhs, rhs = split_arrow line in
@@ -144,6 +153,19 @@ let judge_line (line : string) =
       if cab <> "0" || tab <> "0" then Hashtbl.replace nontrivial (String.concat " " lhs) ();
       bump opcount "CmpTriple";
       report line (judge_cmp (dec_req a) (dec_req b) (dec_req c) (zi cab) (zi cbc) (zi cac) (zi tab) (zi tba) (zi tbc) (zi tac) (zi taa))
+  | ["md"; opn; p; emax; emin; x; y; e; mi; k], rhs when List.length rhs = 16 ->
+      let c = mkCtx (z_of_dec_string p) (z_of_dec_string emax) (z_of_dec_string emin) (cond_of_Z Z0) RHalfUp in
+      let arr = Array.of_list rhs in
+      let rs = List.map mres_req (Array.to_list (Array.sub arr 0 8)) in
+      bump opcount ("Modes" ^ opn);
+      if List.exists (fun t -> t <> arr.(0)) (Array.to_list (Array.sub arr 0 8)) then Hashtbl.replace nontrivial (String.concat " " lhs) ();
+      ignore x; ignore y; ignore e;
+      report line (judge_modes (op_of_token opn) c (nat_of_int (int_of_string mi)) (z_of_dec_string k) rs
+                     (mres_of_token arr.(9)) (mres_of_token arr.(11)) (mres_of_token arr.(13)) (mres_of_token arr.(15)))
+  | ["mo"; _; _; _; _; x; y], [rx; ry] ->
+      bump opcount "RoundMonotone";
+      if rx <> ry then Hashtbl.replace nontrivial (String.concat " " lhs) ();
+      report line (judge_mono (dec_req x) (dec_req y) (mres_req rx) (mres_req ry))
   | ["dr"; x; dpre; al], [d; n; xpost] ->
       if n <> "0" then Hashtbl.replace nontrivial x ();
       report line (judge_dec_reduce (dec_req x) (dec_req dpre) (al = "dx") (dec_req d) (z_of_dec_string n) (dec_of_token xpost))
